@@ -262,7 +262,7 @@ func runC11(r *Run) {
 			ok         bool
 			exp        time.Time
 			start, end int64
-			at         time.Time
+			at         time.Time // taken before the call
 		}
 		var mu sync.Mutex
 		var stores []storeRec
@@ -297,9 +297,9 @@ func runC11(r *Run) {
 						c.Store(k, val11{k, s}, exp)
 						ls = append(ls, storeRec{k, s, st, tick(), exp, time.Now()})
 					case y < 36:
+						at := time.Now()
 						st := tick()
 						v, e, ok := c.Get(k)
-						at := time.Now()
 						lg = append(lg, getRec{k, v, ok, e, st, tick(), at})
 					case y == 36:
 						st := tick()
@@ -347,8 +347,9 @@ func runC11(r *Run) {
 			case s.start > g.end:
 				r.Fail("a lookup returned a value whose store began after the lookup had returned", desc)
 				continue
-			case s.exp.Before(g.at.Add(-2 * time.Millisecond)):
-				r.Fail("a lookup returned a value that had expired", desc)
+			case s.exp.Before(g.at):
+				// the clock is monotonic and g.at was read before the lookup began: no margin needed, a stalled goroutine cannot make this fire
+				r.Fail("a lookup returned a value that had expired before the lookup began", desc)
 				continue
 			}
 			for _, s2 := range byKey[g.key] {
@@ -449,5 +450,7 @@ func runC11(r *Run) {
 		r.meta.Dist["expired-key-bursts"] += bursts
 		r.Trace()
 	}
-	r.Finish("part 1: sequential histories (60..260 operations, or enough to overflow a shard) of store / get / flush / len on pkg/cache.Cache for configured sizes {-5, 0, 1, 63, 64, 100, 1024, 1025, 1100, 2048, 4097} with keys hashed into one hot shard and across shards, expiry already past / 25 ms ahead / far ahead, eviction victims read back after every store; sweep histories with a 15 ms cleaner; part 2: 8 goroutines x 1500 operations (store / get / flush / len / range, short expiries, 5 ms cleaner) over 120 keys in 3 shards with logical timestamps: every hit is checked for foreign, expired, overwritten or flushed values, every Len / Range count against the capacity; part 3: bursts of 6 simultaneous lookups of one just-expired key followed by get / range / len / store / get on it")
+	// ------------------------------------------------------------------ part 4
+	c11SweepRounds(r)
+	r.Finish("part 1: sequential histories (60..260 operations, or enough to overflow a shard) of store / get / flush / len on pkg/cache.Cache for configured sizes {-5, 0, 1, 63, 64, 100, 1024, 1025, 1100, 2048, 4097} with keys hashed into one hot shard and across shards, expiry already past / 25 ms ahead / far ahead, eviction victims read back after every store; sweep histories with a 15 ms cleaner; part 2: 8 goroutines x 1500 operations (store / get / flush / len / range, short expiries, 5 ms cleaner) over 120 keys in 3 shards with logical timestamps: every hit is checked for foreign, expired, overwritten or flushed values, every Len / Range count against the capacity; part 3: bursts of 6 simultaneous lookups of one just-expired key followed by get / range / len / store / get on it; part 4 (exported API only): lookups in flight across the expiry sweep: 2..3 writers storing values that live 20 us .. 3 ms and carry key, store number and expiry, 3..40 readers, the cache's own cleaner every 1 us .. 1 ms, rounds with 24-byte values under forced collections and more goroutines than processors, and rounds with 16 / 64 / 256 KiB values whose every cache line repeats the value's stamp: every hit must be a value some store wrote (not zero, not a mixture), stored under the looked-up key, with the expiry it was stored with, not expired when the lookup began; parts 2-4 run a second time under the race detector")
 }
